@@ -136,6 +136,11 @@ get_llen(prch_ctx_t ctx, uint32_t lno)
 
 
 /* internal operations */
+#if defined DATEUTILS_VERIF
+static unsigned long verif_nrd;
+static unsigned long verif_out;
+#endif	/* DATEUTILS_VERIF */
+
 FDEFU int
 prchunk_fill(prch_ctx_t ctx)
 {
@@ -187,6 +192,11 @@ yield1:
 	}
 	/* read CHUNK_SIZE bytes */
 	bno += (nrd = read(ctx->fd, bno, CHUNK_SIZE));
+#if defined DATEUTILS_VERIF
+	if (nrd > 0) {
+		verif_nrd += (unsigned long)nrd;
+	}
+#endif	/* DATEUTILS_VERIF */
 	/* if we came from yield2 then off == __ctx->bno, and if we
 	 * read 0 or less bytes then off >= __ctx->bno + nrd, so we
 	 * can simply use that compact expression if the buffer has no
@@ -243,6 +253,17 @@ yield3:
 	ctx->cur_lno = 0;
 	ctx->off = off - ctx->buf;
 	ctx->bno = bno - ctx->buf;
+#if defined DATEUTILS_VERIF
+	/* H4: the window offsets stay ordered and inside the window, and
+	 * bytes handed out as lines plus bytes held equal the bytes read */
+	dateutils_verif_probe(
+		"prchunk_fill", (long)ctx->off, (long)ctx->bno,
+		(long)MAX_NLINES * MAX_LLEN, (long)ctx->tot_lno);
+	verif_out += ctx->off;
+	dateutils_verif_probe(
+		"prchunk_conserve", (long)(verif_out + (ctx->bno - ctx->off)),
+		(long)verif_nrd, 0, 0);
+#endif	/* DATEUTILS_VERIF */
 #undef YIELD
 #undef CHUNK_SIZE
 	return 0;
